@@ -28,6 +28,7 @@ CONSTANTS MaxF,         \* tables of 1..MaxF fields
           CDev,         \* constructor: at most CDev (sticky) keywords given
           HDev,         \* first write of a history: at most HDev keywords given
           MaxWrites,    \* writes per history
+          HTables,      \* histories on the first HTables tables of HistList
           FixedSticky,  \* TRUE: constructor array_delim sticks (contract); FALSE: the code as found
           Parts,        \* subset of {"aprint", "writer", "b"}
           DeepAll,      \* TRUE: RefAccepted / CorruptRejected on every history (FALSE: on the aprint histories only)
@@ -152,12 +153,14 @@ PickKinds == /\ ph = "shape"
                               fields |-> [j \in 1..tab.nf |-> [nm |-> Names[j], cls |-> ks[j].cls, sk |-> ks[j].sk, shape |-> ks[j].shape]]]
              /\ ph' = "tab" /\ UNCHANGED <<H, mech, bc>>
 HasArray(t) == \E j \in DOMAIN t.fields : t.fields[j].shape # <<>>
-HistTable(t) == /\ t.nrows = MaxRows /\ HasArray(t) /\ t.nf <= 2
-                /\ (IF Rich \/ t.nf = 1 THEN TRUE ELSE (t.fields[1].cls = "s" /\ t.fields[2].shape # <<>>))
+\* the tables on which writer histories are enumerated: the first HTables of this list (by their field kinds)
+HistList == << <<K("s", "S", <<>>), K("i", "-", <<2>>)>>, <<K("f", "-", <<2, 2>>)>>, <<K("i", "-", <<2>>)>>, <<K("s", "S", <<>>), K("f", "-", <<2, 2>>)>> >>
+KindsOf(t) == [j \in 1..Len(t.fields) |-> K(t.fields[j].cls, t.fields[j].sk, t.fields[j].shape)]
+HistTable(t) == t.nrows = MaxRows /\ \E n \in 1..HTables : KindsOf(t) = HistList[n]
 Call(s) == [tab |-> tab, o |-> Resolve(tab, s)]
 
 Aprint == /\ ph = "tab" /\ "aprint" \in Parts
-          /\ \E s \in (IF tab.nrows = MaxRows THEN AprintBig ELSE AprintSmall) :
+          /\ \E s \in (IF tab.nrows = MaxRows /\ tab.nf <= 2 THEN AprintBig ELSE AprintSmall) :
                 /\ OptFits(tab, s)
                 /\ H' = [entry |-> "aprint", target |-> "obj", ctor |-> Resolve(tab, s), calls |-> <<Call(s)>>]
                 /\ mech' = MSet(MSet(M0, Resolve(tab, s)), Resolve(tab, s))
